@@ -5184,7 +5184,11 @@ def elemwise(op, *args, out=None, where=True, dtype=None, name=None, **kwargs):
         )
 
     if not name:
-        name = f"{funcname(op)}-{tokenize(op, dtype, *args, where)}"
+        token_args = [op, dtype, *args, where]
+        if where is not True:
+            # ``out`` provides the values wherever the mask is False
+            token_args.append(out)
+        name = f"{funcname(op)}-{tokenize(*token_args)}"
 
     blockwise_kwargs = dict(dtype=dtype, name=name, token=funcname(op).strip("_"))
 
